@@ -12,6 +12,7 @@ import (
 	"encoding/binary"
 	"encoding/json"
 	"errors"
+	"flag"
 	"fmt"
 	"io"
 	"math/rand"
@@ -65,6 +66,7 @@ type Ev struct {
 	Cols []Col  `json:"cols,omitempty"` // send: decoded values per column
 	Ok   bool   `json:"ok"`
 	Imm  *bool  `json:"imm,omitempty"` // req: how Request itself completed the promise
+	L2   *Ev2   `json:"-"`
 }
 
 type Case struct {
@@ -311,6 +313,7 @@ type bench struct {
 	inflight []bool
 	goahead  []chan bool // per service: lets the OnBeforeInsert callback return
 	before   []bool      // the worker sits in OnBeforeInsert (after swapBuffers, before client.Do)
+	l2       *bench2     // level 2: rows are recognised by content
 	trouble  string
 }
 
@@ -336,16 +339,23 @@ var errInsert = errors.New("scripted insert failure")
 var errDial = errors.New("scripted connection refused")
 
 func (c *fakeClient) Do(ctx context.Context, q ch.Query) error {
-	cols := make([]Col, len(q.Input))
-	for i, in := range q.Input {
-		v, err := decodeCol(in.Data)
-		if err != nil {
-			c.b.fail("decode: " + err.Error())
+	var ev Ev
+	if c.b.l2 != nil {
+		e2 := (&fakeClient2{fakeClient: *c, b2: c.b.l2}).doLevel2(q.Input)
+		ev = Ev{T: "send", S: c.s, L2: &e2}
+	} else {
+		cols := make([]Col, len(q.Input))
+		for i, in := range q.Input {
+			v, err := decodeCol(in.Data)
+			if err != nil {
+				c.b.fail("decode: " + err.Error())
+			}
+			cols[i] = compress(v)
 		}
-		cols[i] = compress(v)
+		ev = Ev{T: "send", S: c.s, Cols: cols}
 	}
 	c.b.mu.Lock()
-	c.b.events = append(c.b.events, Ev{T: "send", S: c.s, Cols: cols})
+	c.b.events = append(c.b.events, ev)
 	if c.b.inflight[c.s] {
 		c.b.trouble = "two concurrent Do calls on one worker"
 	}
@@ -442,7 +452,7 @@ var goHdr = regexp.MustCompile(`^goroutine \d+ \[([^\],]+)`)
 
 // markers of the goroutines that belong to the system under test
 // (a goroutine that has not started yet shows only its go-statement wrapper and its "created by" line)
-var ours = []string{"writer/service.(*InsertServiceV2).Run", "created by main.(*runner).",
+var ours = []string{"writer/service.(*InsertServiceV2).Run", "created by main.(*runner",
 	"created by github.com/metrico/qryn/writer/controller", "created by github.com/metrico/qryn/writer/utils/unmarshal"}
 
 // parked reports whether every goroutine of the system under test is blocked on a channel (select in Run,
@@ -478,7 +488,12 @@ func parked() (quiet bool, running int) {
 			continue
 		}
 		switch m[1] {
-		case "select", "chan receive", "select (no cases)":
+		case "chan receive":
+		case "select":
+			// retry-go waits for its (zero) delay in a select on time.After: that is not a parked goroutine
+			if strings.Contains(g, "avast/retry-go") && !strings.Contains(g, "promise.(*Promise") {
+				quiet = false
+			}
 		default:
 			quiet = false
 		}
@@ -947,12 +962,35 @@ func (g *gen) runGenerated(c *Case) {
 }
 
 func main() {
+	level := flag.Int("level", 1, "1 = service scripts, 2 = HTTP handlers with retry")
 	f := hx.ParseFlags()
 	config.Cloki = clconfig.New(clconfig.CLOKI_WRITER, nil, "", "")
 	service.CreateColPools(0)
 	logger.Logger.SetOutput(io.Discard)
 	out := hx.OpenOut(f.Out)
 	defer out.Close()
+	if *level == 2 {
+		initLevel2()
+		if f.Cases != "" {
+			hx.ReadLines(f.Cases, func(b []byte) {
+				var c Case2
+				if err := json.Unmarshal(b, &c); err != nil {
+					panic(err)
+				}
+				runScript2(&c)
+				out.Put(c)
+			})
+			return
+		}
+		g := &gen{r: hx.Rand(f.Seed)}
+		uniq := f.Seed % 1000 * 1000000
+		for i := 0; i < f.N; i++ {
+			c := &Case2{ID: i}
+			g.runGenerated2(c, &uniq)
+			out.Put(c)
+		}
+		return
+	}
 	if f.Cases != "" {
 		hx.ReadLines(f.Cases, func(b []byte) {
 			var c Case
